@@ -422,6 +422,7 @@ func configExtra(t *tr) string {
 	unregisteredSkipped := false
 	resolverErrReturned := false
 	if rc := findFunc(cu, "ResolveCustomTags"); rc != nil {
+		pureDefs := configPureDefs(cu, rc)
 		ast.Inspect(rc.Body, func(n ast.Node) bool {
 			ifs, ok := n.(*ast.IfStmt)
 			if !ok {
@@ -430,7 +431,8 @@ func configExtra(t *tr) string {
 			body := cfSrc(cu, ifs.Body)
 			cond := cfSrc(cu, ifs.Cond)
 			if strings.Contains(body, "cast(res, targetType)") {
-				castCond = cond
+				// locals that only name a pure expression (a hoisted strings.TrimSpace(s)) are written out
+				castCond = cfSrc(cu, configInline(cu, ifs.Cond, pureDefs, 0))
 			}
 			if cond == "err == ErrResolverNotRegistered" && strings.HasPrefix(body, "{ continue }") {
 				unregisteredSkipped = true
@@ -718,70 +720,115 @@ func configExtra(t *tr) string {
 	if rcfg == nil {
 		t.errs = append(t.errs, "cli.readConfig not found")
 	} else {
-		var assignPos token.Pos
+		// the defaulting may stand in readConfig itself or in a function of package cli that readConfig calls (round 4:
+		// moving the loop into a helper is no change of behaviour); `where` = the function that holds it, `callPos` = where
+		// readConfig reaches it
+		type cand struct {
+			fd      *ast.FuncDecl
+			callPos token.Pos
+		}
+		cands := []cand{{rcfg, token.NoPos}}
 		ast.Inspect(rcfg.Body, func(n ast.Node) bool {
-			ifs, ok := n.(*ast.IfStmt)
-			if !ok || ifs.Init == nil || cfSrc(cp, ifs.Cond) != "!ok" || len(ifs.Body.List) != 1 {
-				return true
-			}
-			as, ok := ifs.Init.(*ast.AssignStmt)
-			if !ok || len(as.Rhs) != 1 {
-				return true
-			}
-			ix, ok := as.Rhs[0].(*ast.IndexExpr)
+			call, ok := n.(*ast.CallExpr)
 			if !ok {
 				return true
 			}
-			k, ok := cfStringConst(cp, ix.Index)
-			if !ok {
-				return true
+			if id, ok := call.Fun.(*ast.Ident); ok {
+				if fn, ok := cp.TypesInfo.ObjectOf(id).(*types.Func); ok && fn.Pkg() == cp.Types {
+					if fd := findFunc(cp, id.Name); fd != nil && fd.Body != nil {
+						cands = append(cands, cand{fd, call.Pos()})
+					}
+				}
 			}
-			set, ok := ifs.Body.List[0].(*ast.AssignStmt)
-			if !ok || len(set.Lhs) != 1 || len(set.Rhs) != 1 {
-				return true
-			}
-			lix, ok := set.Lhs[0].(*ast.IndexExpr)
-			if !ok || cfSrc(cp, lix.X) != cfSrc(cp, ix.X) {
-				return true
-			}
-			k2, ok := cfStringConst(cp, lix.Index)
-			if !ok || k2 != k {
-				return true
-			}
-			v, ok := cfBoolConst(cp, set.Rhs[0])
-			if !ok {
-				gsFail(t, cp, set, "readConfig: the default assigned to %q is not a boolean constant", k)
-				return true
-			}
-			if found {
-				gsFail(t, cp, ifs, "readConfig: more than one key is defaulted")
-			}
-			key, dflt, found = k, v, true
-			assignPos = ifs.Pos()
 			return true
 		})
-		if !found {
-			t.errs = append(t.errs, "readConfig: `if _, ok := m[K]; !ok { m[K] = <bool> }` not found")
+		var assignPos, reachPos token.Pos
+		var where *ast.FuncDecl
+		for _, c := range cands {
+			c := c
+			ast.Inspect(c.fd.Body, func(n ast.Node) bool {
+				ifs, ok := n.(*ast.IfStmt)
+				if !ok || ifs.Init == nil || len(ifs.Body.List) != 1 {
+					return true
+				}
+				as, ok := ifs.Init.(*ast.AssignStmt)
+				if !ok || len(as.Rhs) != 1 || len(as.Lhs) != 2 {
+					return true
+				}
+				// `if _, <present> := m[K]; !<present>`
+				if un, ok := ifs.Cond.(*ast.UnaryExpr); !ok || un.Op != token.NOT || cfSrc(cp, un.X) != cfSrc(cp, as.Lhs[1]) {
+					return true
+				}
+				ix, ok := as.Rhs[0].(*ast.IndexExpr)
+				if !ok {
+					return true
+				}
+				k, ok := cfStringConst(cp, ix.Index)
+				if !ok {
+					return true
+				}
+				set, ok := ifs.Body.List[0].(*ast.AssignStmt)
+				if !ok || len(set.Lhs) != 1 || len(set.Rhs) != 1 {
+					return true
+				}
+				lix, ok := set.Lhs[0].(*ast.IndexExpr)
+				if !ok || cfSrc(cp, lix.X) != cfSrc(cp, ix.X) {
+					return true
+				}
+				k2, ok := cfStringConst(cp, lix.Index)
+				if !ok || k2 != k {
+					return true
+				}
+				v, ok := cfBoolConst(cp, set.Rhs[0])
+				if !ok {
+					gsFail(t, cp, set, "readConfig: the default assigned to %q is not a boolean constant", k)
+					return true
+				}
+				if found {
+					gsFail(t, cp, ifs, "readConfig: more than one key is defaulted")
+				}
+				key, dflt, found = k, v, true
+				assignPos = ifs.Pos()
+				where = c.fd
+				reachPos = c.callPos
+				if c.fd == rcfg {
+					reachPos = ifs.Pos()
+				}
+				return true
+			})
 		}
-		// the defaulting must precede the decode of v.AllSettings(), and be written back with v.Set("pools", …)
+		if !found {
+			t.errs = append(t.errs, "readConfig: `if _, ok := m[K]; !ok { m[K] = <bool> }` not found (in readConfig or a function of package cli it calls)")
+		}
+		// the defaulted pools are written back (`<viper>.Set("pools", …)`, after the defaulting, in the same function) and
+		// readConfig reaches all of that before it decodes `v.AllSettings()`
 		var decodePos, setPos token.Pos
 		ast.Inspect(rcfg.Body, func(n ast.Node) bool {
 			if call, ok := n.(*ast.CallExpr); ok {
-				s := cfSrc(cp, call)
-				if strings.HasPrefix(s, "config.DecodeAndValidate(v.AllSettings()") {
+				if strings.HasPrefix(cfSrc(cp, call), "config.DecodeAndValidate(v.AllSettings()") {
 					decodePos = call.Pos()
-				}
-				if strings.HasPrefix(s, "v.Set(\"pools\", pools)") {
-					setPos = call.Pos()
 				}
 			}
 			return true
 		})
-		beforeDecode = found && setPos.IsValid() && decodePos.IsValid() && assignPos < setPos && setPos < decodePos
+		if where != nil {
+			ast.Inspect(where.Body, func(n ast.Node) bool {
+				if call, ok := n.(*ast.CallExpr); ok && len(call.Args) == 2 {
+					if sel, ok := call.Fun.(*ast.SelectorExpr); ok && sel.Sel.Name == "Set" {
+						if k, ok := cfStringConst(cp, call.Args[0]); ok && k == "pools" && call.Pos() > assignPos {
+							setPos = call.Pos()
+						}
+					}
+				}
+				return true
+			})
+		}
+		beforeDecode = found && setPos.IsValid() && decodePos.IsValid() && assignPos < setPos && reachPos < decodePos
 	}
 	b.WriteString("/-- `cli.readConfig`: the key defaulted in every pool mapping that lacks it, and the value it gets -/\n")
 	b.WriteString(fmt.Sprintf("def discardKey : String := %q\n", key))
 	b.WriteString("def discardDefault : Bool := " + leanBool(dflt) + "\n")
 	b.WriteString("/-- the defaulted pools are written back (`v.Set(\"pools\", pools)`) before `config.DecodeAndValidate(v.AllSettings(), …)` -/\ndef discardBeforeDecode : Bool := " + leanBool(beforeDecode) + "\n")
+	b.WriteString(configPluginFacts(t))
 	return b.String()
 }
